@@ -32,10 +32,11 @@ def main():
     ap = argparse.ArgumentParser()
     ap.add_argument('prop'); ap.add_argument('tier', choices=['quick', 'thorough'])
     ap.add_argument('--only'); ap.add_argument('--keep', action='store_true'); ap.add_argument('--jobs', type=int, default=int(os.environ.get('VERIF_JOBS', '8')))
-    ap.add_argument('--no-evidence', action='store_true')
+    ap.add_argument('--no-evidence', action='store_true'); ap.add_argument('--replay')
     a = ap.parse_args()
     seed = int(os.environ.get('VERIF_SEED', '1') or 1)
     t0 = time.time()
+    if a.replay: return replay(a)
     pid = a.prop
     spec = checks.CHECKS[pid]
     qs = [q for q in spec['queries'] if a.tier in q.tiers]
@@ -98,6 +99,24 @@ def main():
     if violations: return 1
     if broken: return 2
     return 0
+
+def replay(a):
+    """re-run a stored counterexample (value stream from the cbmc trace) against the g++ build of the real code"""
+    info = json.load(open(a.replay + '.info'))
+    q = next(q for q in checks.CHECKS[a.prop]['queries'] if q.name == info['query'])
+    wd = tempfile.mkdtemp(prefix='verif.replay.', dir='/var/tmp')
+    try:
+        ll = engine.build_ir(q, wd); roots, flags = engine.harness_roots(q, ll)
+        engine.translate(q, ll, wd, roots); engine.write_main(q, wd, flags)
+        eb, ec, use_hook = engine.build_native(q, wd, flags, hook_available())
+        m = re.search(r'VERIF_SEED=(\d+)', open(a.replay).read())
+        rc, out = engine.native_run(ec, seed=int(m.group(1)), yield_den=None if q.mode == 'seq' else (3 if use_hook else 0)) if m else engine.native_run(ec, replay=a.replay)
+        print(out)
+        if 'ASSERT-FAIL' in out:
+            print('VIOLATION property=%s replay=%s' % (a.prop, a.replay)); return 1
+        return 0
+    finally:
+        shutil.rmtree(wd, ignore_errors=True)
 
 def write_evidence(pid, tier, seed, spec, qs, results, broken, violations, known_hits, wall):
     holds = [R for R in results if R['status'] == 'holds']
